@@ -360,7 +360,56 @@ def run(ctx):
                     if g.name.startswith(SEC) and bracket_sites(g, 'End'):
                         enc, via = g, c
         ends, begins = bracket_sites(enc, 'End'), bracket_sites(enc, 'Begin')
-        if ctx.anchor(R3, 'Manifest::append:serialize(End)', ends) and w:
+        # the bracket as the two ends of one iterator: `once(&Begin).chain(entries).chain(once(&End))`, serialised by ONE to_writer in a
+        # loop over it. Then what counts is the order inside the chain (Begin first, End last, once each), that the loop is the only
+        # consumer, and that the write comes after the loop (it is dominated by the `next` that ends it).
+        chained = None
+        if via is None:
+            def promoted_variant(g, l):
+                for var in ('Begin', 'End'):
+                    if flows_from(g, l, lambda k, p_, bb, var=var: k == 'assign' and p_.get('rv') == 'use' and p_['op']['k'] == 'const'
+                                  and is_promoted_variant(g, p_['op'].get('v', ''), var), depth=6):
+                        return var
+                return None
+            once = {c.dest['l']: promoted_variant(b, c.args[0]['pl']['l']) for c in b.calls
+                    if (c.fn or '').endswith('iter::once') and c.args and c.args[0]['k'] != 'const' and not c.dest['p']}
+            chains = {c.dest['l']: c for c in b.calls if (c.fn or '').endswith('Iterator::chain') and len(c.args) == 2 and not c.dest['p']}
+
+            def seq_of(l, depth=6):
+                org = origin_locals(b, l, depth=3)
+                for x in org:
+                    if x in chains and depth > 0:
+                        c = chains[x]
+                        return sum((seq_of(a['pl']['l'], depth - 1) if a['k'] != 'const' else ['?'] for a in c.args), [])
+                for x in org:
+                    if x in once:
+                        return [once[x] or '?']
+                return ['entries']
+            tops = [l for l in chains if not any(a['k'] != 'const' and l in origin_locals(b, a['pl']['l'], depth=3) for c in chains.values() for a in c.args)]
+            for top in tops:
+                sq = seq_of(top)
+                nexts = [c for c in b.calls if (c.fn or '').endswith('Iterator::next') and c.args and c.args[0]['k'] != 'const'
+                         and top in origin_locals(b, c.args[0]['pl']['l'], depth=6)]
+                tw = [c for c in b.calls if (c.fn or '').endswith('serde_json::to_writer') and len(c.args) > 1 and c.args[1]['k'] != 'const'
+                      and any(n.dest['l'] in origin_locals(b, c.args[1]['pl']['l'], depth=8) for n in nexts)]
+                if sq and sq[0] == 'Begin' and sq[-1] == 'End' and sq.count('Begin') == 1 and sq.count('End') == 1 and '?' not in sq \
+                        and len(nexts) == 1 and len(tw) == 1:
+                    chained = (sq, nexts[0], tw[0])
+        if chained is not None and not (ends and begins and ends != begins):
+            sq, nx, tw = chained
+            others = [c.bb for c in b.calls if (c.fn or '').endswith('serde_json::to_writer') and c is not tw]
+            ok_dom = all(b.dominates(nx.bb, x) for x in w) and not others
+            ctx.ob(R3, 'Manifest::append·End≺write', ok_dom and bool(w),
+                   f'the records are serialised from one iterator {sq} by the to_writer at block {tw.bb}; the loop (next at block {nx.bb}) '
+                   f'comes before the single write at {w}; other to_writer calls: {others}', [site(b, tw.bb)] + [site(b, x) for x in w])
+            looped_w = [x for x in w if b.reachable_from(b.succs[x]) & {x}]
+            ctx.ob(R3, 'Manifest::append·one-bracket-per-call', not looped_w and not (b.reachable_from(b.succs[nx.bb]) & {c.bb for c in b.calls if c.dest['l'] in chains}),
+                   f'one chain {sq} per call, built outside the loop; write at {w}, inside a loop: {looped_w}', [site(b, tw.bb)],
+                   what='Manifest::append writes one changeset as several Begin..End brackets (or in several writes): replay commits every closed '
+                        'bracket, so a crash in the middle of the append leaves a statement with many entries (a large INSERT, DELETE, DROP TABLE) '
+                        'half applied after recovery')
+            ends = begins = None
+        if ends is not None and ctx.anchor(R3, 'Manifest::append:serialize(End)', ends) and w:
             if via is None:
                 ok_dom = all(b.dominated_by_any(set(ends), x) for x in w)
             else:   # End dominates every successful return of the encoder, and the encoder call dominates the write
@@ -373,10 +422,10 @@ def run(ctx):
                    [site(enc, x) for x in ends] + [site(b, x) for x in w])
         # one transaction = one bracket = one write: neither the write nor the serialisation of Begin / End is repeated (after seed C04-f:
         # a changeset written in batches, each with a bracket of its own, is no longer atomic for replay)
-        looped = [x for x in ends + begins if enc.reachable_from(enc.succs[x]) & {x}] + [x for x in w if b.reachable_from(b.succs[x]) & {x}]
+        looped = [x for x in (ends or []) + (begins or []) if enc.reachable_from(enc.succs[x]) & {x}] + [x for x in w if b.reachable_from(b.succs[x]) & {x}]
         if via is not None and b.reachable_from(b.succs[via.bb]) & {via.bb}:
             looped.append(via.bb)
-        if ctx.anchor(R3, 'Manifest::append:serialize(Begin)', begins):
+        if begins is not None and ctx.anchor(R3, 'Manifest::append:serialize(Begin)', begins):
             ctx.ob(R3, 'Manifest::append·one-bracket-per-call', not looped and len(begins) == 1 and len(ends) == 1,
                    f'Begin serialised at {begins}, End at {ends}' + (f' (in {enc.name.rsplit("::", 1)[-1]})' if via is not None else '')
                    + f', write at {w}; of these inside a loop: {looped}',
